@@ -73,6 +73,8 @@ def main():
             p = os.path.join(a.src, f)
             if os.path.isfile(p) and not f.startswith("fml.") and os.path.getsize(p) < 2_000_000:
                 shutil.copy2(p, os.path.join(demo_dir, f))
+            elif os.path.isdir(p) and not f.startswith(("target", ".")):
+                shutil.copytree(p, os.path.join(demo_dir, f), dirs_exist_ok=True)
         os.chmod(os.path.join(demo_dir, "demo.sh"), 0o755)
         rc_o, out_o = sh(["bash", "demo.sh", orig_bin], cwd=demo_dir, timeout=300)
         rc_c, out_c = sh(["bash", "demo.sh", chg_bin], cwd=demo_dir, timeout=300)
@@ -108,6 +110,8 @@ def main():
             p = os.path.join(a.src, f)
             if os.path.isfile(p) and not f.startswith("fml.") and os.path.getsize(p) < 1_000_000:
                 shutil.copy2(p, os.path.join(dst, f))
+            elif os.path.isdir(p) and not f.startswith(("target", ".")):
+                shutil.copytree(p, os.path.join(dst, f), dirs_exist_ok=True)
         notes = open(os.path.join(a.src, "notes.md")).read() if os.path.exists(os.path.join(a.src, "notes.md")) else ""
         meta = {
             "id": a.seed_id, "breaks_property": a.prop, "base_commit": head,
